@@ -105,16 +105,17 @@ def next : List Char → List Char → Except MErr (Option (Chunk × List Char))
   | c :: r, lit =>
     if c = '}' then
       match r with
-      | '}' :: r' => .ok (some ({ literal := lit ++ ['}'], field := none }, r'))
-      | _ => .error .singleClose
+      | [] => .error .singleClose
+      | d :: r' => if d = '}' then .ok (some ({ literal := lit ++ ['}'], field := none }, r')) else .error .singleClose
     else if c = '{' then
       match r with
       | [] => .error .singleOpen
-      | '{' :: r' => .ok (some ({ literal := lit ++ ['{'], field := none }, r'))
-      | _ =>
-        match parseField r with
-        | .error e => .error e
-        | .ok (f, r') => .ok (some ({ literal := lit, field := some f }, r'))
+      | d :: r' =>
+        if d = '{' then .ok (some ({ literal := lit ++ ['{'], field := none }, r'))
+        else
+          match parseField (d :: r') with
+          | .error e => .error e
+          | .ok (f, r'') => .ok (some ({ literal := lit, field := some f }, r''))
     else next r (lit ++ [c])
 
 /-- the whole iteration; `fuel` ≥ number of characters + 1 -/
